@@ -193,8 +193,9 @@ def check(tier, seed):
               'chunk sizes, exception mask, surrounding junk) the fault space is enumerated completely: every proper prefix '
               'length (clean EOF), prefixes produced by really interrupting the writer (tear), every failing refill index, '
               'every header/footer/tag/width word x {each single-bit flip, every layer tag and footer tag, +-0x20000000, 0, ~0, '
-              'both magics, other legal width, 0..16 for the width word, 8 seeded random words}, every reader stack whose format '
-              'signature differs; distinct = distinct (stack, dump seed, kind, position, value, reader); every case injects a '
+              'both magics, other legal width, 0..16 for the width word, 8 seeded random words} - each of these met by the writer\'s own '
+              'type AND by every other pool type with the same on-disk signature whose fault-free load succeeds (other interpolator, '
+              'other float width) - and every reader stack whose format signature differs (must reject the intact dump); distinct = distinct (stack, dump seed, kind, position, value, reader); every case injects a '
               'fault, so every case is non-trivial'),
         samples=samples,
         exhaustive=True,
@@ -213,6 +214,6 @@ def check(tier, seed):
         'stored and configuration scalars whose aligned 32-bit words equal a magic or tag word are excluded by the generator (the format is not self-delimiting)',
         'the element-count word is not altered (it is not in the property\'s list)',
         'valgrind 3.19 memcheck decides "uninitialised"; it runs on a smaller set of dumps than the native builds',
-        'a hang is detected deterministically only as refill-budget exhaustion; a 300 s wall-clock watchdog is the backstop',
+        'a hang is detected as refill-budget exhaustion (reader keeps pulling a dead stream) or by a per-case CPU-time watchdog (10 s of the worker\'s own CPU time; a spin that never touches the stream buffer again)',
     ]
     return rep.finish()
